@@ -43,6 +43,53 @@ def run(tier, seed):
     expect("InternShipped (no lock) violates C20_Single", "C20_Single" in r.violated)
     r = run_tlc("MC_Memo", wd=workdir("st_memo"), workers=1, timeout=300)
     expect("MemoShipped violates C08_Function", "C08_Function" in r.violated)
+    # 7. Ledger: a hand-written history with one violation of each family must be rejected clause by clause, and the
+    #    same history without them must be clean
+    import json
+    import os
+    import ledger
+
+    def U(k, pl, t, d):
+        return {"k": k, "pl": pl, "t": t, "d": d, "sc": False}
+
+    def Q(u, lm, sg, mk="float"):
+        return {"u": u, "mk": mk, "lm": lm, "sg": sg}
+    L, T = [0, 1, 0], [0, 0, 1]
+    meter, foot, yard, sec = U("0|meter:1", 0, [["meter", 1]], L), U("0|foot:1", 0, [["foot", 1]], L), U("0|yard:1", 0, [["yard", 1]], L), U("0|second:1", 0, [["second", 1]], T)
+
+    def conv(a, b, out, obs, **kw):
+        e = {"e": "conv", "a": a, "b": b, "out": out, "obs": obs, "zero": False, "sign": True, "same": True, "mk": "float", "rk": "float"}
+        e.update(kw)
+        return e
+    good = [{"e": "decl", "t": [["foot", 1], ["meter", -1]], "lat": -1188091, "text": "foot = 0.3048 m"}, {"e": "start"},
+            conv(foot, meter, "ok", -1188091), conv(meter, foot, "ok", 1188091), conv(yard, meter, "CNF", None),
+            {"e": "decl", "t": [["yard", 1], ["foot", -1]], "lat": 1098612, "text": "yard = 3 ft"}, conv(yard, meter, "ok", -89479),
+            {"e": "arith", "op": "add", "l": Q(meter, 0, 1), "r": Q(foot, 0, 1), "n": None, "out": "ok", "res": Q(meter, 266000, 1)},
+            {"e": "cmp", "op": "lt", "l": Q(foot, 0, 1), "r": Q(meter, 0, 1), "out": "T"}]
+    bad = [good[0], good[1],
+           conv(foot, meter, "ok", -1188091 + 500),                                   # C04 value (5e-4 off)
+           conv(foot, meter, "ok", -1188091 + 900),                                   # C08 repeat differs (and value)
+           conv(meter, foot, "ok", 1188091, same=False),                              # C04 unit
+           conv(yard, meter, "CNF", None), conv(yard, meter, "ok", None),             # C08 fail then ok in one epoch
+           conv(meter, sec, "ok", 0),                                                 # C03 incommensurable converted
+           conv(meter, foot, "OTHER:KeyError", None),                                 # C07 escaped (and C08 ok then fail is CNF only)
+           {"e": "arith", "op": "add", "l": Q(meter, 0, 1), "r": Q(sec, 0, 1), "n": None, "out": "ok", "res": Q(meter, 0, 1)},         # C03
+           {"e": "arith", "op": "mul", "l": Q(meter, 0, 1, "Decimal"), "r": Q(foot, 0, 1), "n": None, "out": "ok", "res": Q(U("0|foot:1,meter:1", 0, [["foot", 1], ["meter", 1]], [0, 2, 0]), 5000, 1)},  # C03 decimal lost, C06 value (5e-3 off)
+           {"e": "cmp", "op": "lt", "l": Q(meter, 0, 1), "r": Q(foot, 0, 1), "out": "T"}]       # C12: 1 m < 1 ft
+    wd = workdir("st_ledger")
+    got = {}
+    for label, evs in (("good", good), ("bad", bad)):
+        f = os.path.join(wd, label + ".ndjson")
+        with open(f, "w") as fh:
+            for e in ledger.normalise(evs):
+                fh.write(json.dumps(e) + "\n")
+        r = run_tlc("MC_LedgerTrace", wd=workdir("st_ledger_" + label), env={"VERIF_TRACE_FILE": f}, workers=1, timeout=300)
+        got[label] = sorted({b["clause"] for b in r.exports.get("BAD", [])}) if r.exports.get("DONE") and not r.errors else ["TLC failed: %s" % r.errors[:1]]
+    want = {"C04:conv:value", "C08:conv:repeat-differs", "C04:conv:unit-not-the-requested-one", "C08:conv:failed-then-succeeded-without-a-declaration",
+            "C03:conv:incommensurable-not-rejected", "C07:conv:escaped:OTHER:KeyError", "C03:add:incommensurable-not-rejected", "C03:mul:decimal-lost",
+            "C06:mul:physical-value", "C12:cmp:lt:disagrees-with-physical-order"}
+    expect("Ledger accepts the consistent history", got["good"] == [], str(got["good"])[:120])
+    expect("Ledger rejects each planted violation by its clause", want <= set(got["bad"]), str(sorted(want - set(got["bad"])))[:160])
     if not all(ok for _, ok, _ in results):
         raise MachineryError("self-test failed: %s" % [n for n, ok, _ in results if not ok])
     print("selftest: %d negative controls behaved as required" % len(results))
